@@ -428,7 +428,7 @@ func rulesC13(e *Engine, r *Report) {
 	}
 
 	// ---------------------------------------------------------------- R13.8
-	r.Rule("R13.8", "the encoder keeps the frame: for each part it seeks to the part's beg and every Read reports min(len(buffer), bytes left of the part) - a count derived only from the part's declared extent and the buffer, never from what the file happened to yield -, advances the part's progress by that count and moves to the next part when the declared extent is used up; so a part always occupies exactly end-beg bytes on the wire")
+	r.Rule("R13.8", "the encoder keeps the frame: for each part it seeks to the part's beg and every Read that goes on reports min(len(buffer), bytes left of the part) - a count derived only from the part's declared extent and the buffer, never from what the file happened to yield (that count is reported only together with the read error, other than the end of the file, that ends the transmission) -, advances the part's progress by that count and moves to the next part when the declared extent is used up; so a part always occupies exactly end-beg bytes on the wire")
 	if fn := needFn(e, r, "R13.8", "payload.(*Encoder).Read"); fn != nil {
 		left := "((p0.binPart.end - p0.binPart.beg) - p0.partProgress)"
 		// the named result n: all stores
@@ -461,8 +461,21 @@ func rulesC13(e *Engine, r *Report) {
 			for _, ref := range *nAlloc.Referrers() {
 				if st, ok := ref.(*ssa.Store); ok && st.Addr == nAlloc {
 					s := e.Canon(st.Val)
+					if s == "0" || s == "builtin(len)(p1)" || s == left || s == "conv(int)("+left+")" {
+						vals = append(vals, s)
+						continue
+					}
+					// what the file yielded may be reported only together with the read error
+					// that ended it (not the end of the file): the transmission stops there (F54)
+					conds := strings.Join(e.domConds(st.Block()), " ; ")
+					withErr := strings.Contains(conds, "#1 != nil)") && (strings.Contains(conds, "(global(io.EOF) != ") || strings.Contains(conds, " != global(io.EOF))"))
+					if withErr {
+						if rt, isRet := st.Block().Instrs[len(st.Block().Instrs)-1].(*ssa.Return); !isRet || len(rt.Results) != 2 {
+							withErr = false
+						}
+					}
 					vals = append(vals, s)
-					if !(s == "0" || s == "builtin(len)(p1)" || s == left || s == "conv(int)("+left+")") {
+					if !withErr {
 						okR = false
 					}
 				}
@@ -587,5 +600,22 @@ func rulesC13(e *Engine, r *Report) {
 			}
 		}
 		r.Min("R13.13", "routes that validate their parts", callers, 2)
+	}
+	// ---------------------------------------------------------------- R13.14
+	r.Rule("R13.14", "what could not be read is not made up: in Encoder.Read a read that ended with an error goes on to account for the part and to start the next one only if that error is the end of the file (the short file is filled up, R13.11); any other error leaves the function before - it is not overwritten by the result of startNextPart while the unread tail of the buffer goes out as file content")
+	if fn := needFn(e, r, "R13.14", "payload.(*Encoder).Read"); fn != nil {
+		rd := "invoke(sts.Readable.Read)(p0.handle, §)#1"
+		cls := labeler(
+			C("("+rd+" != nil)", "readErr"),
+			L{Kind: EvCond, Re: pat("(" + rd + " == nil)"), Kill: "readErr"}, // the same value seen nil: not an error path
+			C("(global(io.EOF) == "+rd+")", "isEOF"), C("("+rd+" == global(io.EOF))", "isEOF"),
+			C("call(errors.Is)("+rd+", global(io.EOF))", "isEOF"),
+		)
+		n := 0
+		for _, pat := range []string{"store(p0.partProgress = §)", "call(payload.(*Encoder).startNextPart)(p0)"} {
+			n += e.Guarded(r, "R13.14", "payload.(*Encoder).Read: `"+shorten(pat)+"` is not reached with a read error other than the end of the file", fn, e.instrMatch(pat), cls,
+				func(l LabelSet) bool { return !l.Has("readErr") || l.Has("isEOF") }, "no read error, or the error is io.EOF")
+		}
+		r.Min("R13.14", "accounting steps in Encoder.Read", n, 2)
 	}
 }
